@@ -108,7 +108,33 @@ class SigmaCollection:
         )
 
         # Sort rules by reference order
-        self.rules = list(sorted(self.rules))
+        self.rules = self._sorted_by_references(self.rules)
+
+    @staticmethod
+    def _sorted_by_references(
+        rules: list[SigmaRule | SigmaCorrelationRule],
+    ) -> list[SigmaRule | SigmaCorrelationRule]:
+        """
+        Order rules such that each rule referenced by a correlation rule (directly or through other
+        correlation rules) precedes it. Apart from that the given order is kept. The comparison of
+        rules by backreferences is only a partial order and therefore can't be used for sorting.
+        """
+        contained = {id(rule) for rule in rules}
+        result: list[SigmaRule | SigmaCorrelationRule] = []
+        done: set[int] = set()
+
+        def visit(rule: SigmaRule | SigmaCorrelationRule, path: frozenset[int]) -> None:
+            if id(rule) in done or id(rule) in path or id(rule) not in contained:
+                return
+            if isinstance(rule, SigmaCorrelationRule):
+                for rule_ref in rule.referenced_rules:
+                    visit(rule_ref.rule, path | {id(rule)})
+            done.add(id(rule))
+            result.append(rule)
+
+        for rule in rules:
+            visit(rule, frozenset())
+        return result
 
     @classmethod
     def from_dicts(
